@@ -146,3 +146,12 @@ MULTIFILE_ORDER = [
     "main:\n    beqz a0, other\n    add a1, t0, t0\n    li a7, 10\n    ecall\nother:\n    add a2, t0, t0\n    li a7, 10\n    ecall\n",
     "main:\n    call fa\n    call fb\n    li a7, 10\n    ecall\nfa:\n    beqz a0, shared\n    li s1, 1\n    ret\nfb:\n    li s2, 2\nshared:\n    li s3, 3\n    ret\n",
 ]
+
+# functions sharing code: shared tails, several returns, interleaved layouts (C11, C10, C12)
+SHARED_PROGRAMS = [
+    "main:\n    call fn_a\n    call fn_b\n    li a7, 10\n    ecall\nfn_a:\n    addi a0, a0, 1\n    j tail\nfn_b:\n    beqz a0, tail\n    li a0, 2\n    ret\ntail:\n    addi a0, a0, 3\n    ret\n",
+    "main:\n    call fn_a\n    call fn_b\n    li a7, 10\n    ecall\nfn_b:\n    beqz a0, tail\n    li a0, 2\n    ret\nfn_a:\n    addi a0, a0, 1\ntail:\n    addi a0, a0, 3\n    ret\n",
+    "main:\n    call f\n    li a7, 10\n    ecall\nf:\n    beqz a0, f_zero\n    bltz a0, f_neg\n    li a0, 1\n    ret\nf_zero:\n    li a0, 0\n    ret\nf_neg:\n    li a0, -1\n    ret\n",
+    "main:\n    call f\n    call g\n    li a7, 10\n    ecall\nf:\n    bnez a0, f_other\n    li a0, 5\n    ret\nf_other:\n    li a0, 6\n    ret\ng:\n    beqz a0, f_other\n    li a0, 7\n    ret\n",
+    "main:\n    call a\n    call b\n    call c\n    li a7, 10\n    ecall\na:\n    li a0, 1\n    j ab\nb:\n    li a0, 2\nab:\n    addi a0, a0, 1\n    beqz a0, abc\n    ret\nc:\n    li a0, 3\nabc:\n    addi a0, a0, 2\n    ret\n",
+]
